@@ -834,6 +834,7 @@ Definition bpost (visited : list label) (steps depth : nat) (r : bres) : Prop :=
   length visited <= length (b_visited r) /\
   b_steps r + length visited + W st visited <= steps + 1 + length (b_visited r) + W st (b_visited r) /\
   b_depth r + length visited <= depth + 1 + length (b_visited r) /\
+  (depth <= length visited -> length visited <= MAX_INGREDIENT_DEPTH -> b_depth r <= MAX_INGREDIENT_DEPTH) /\
   (forall l, b_result r = Some l -> exists ml, lookup st l = Some ml /\ m_update ml = false /\ m_hashbind ml = true).
 
 Lemma binding_post : forall fuel c m visited steps depth,
@@ -844,8 +845,11 @@ Proof.
   induction fuel as [|f IH]; intros c m visited steps depth L ND IN F.
   - exfalso. apply NoDup_incl_len in IN; [|assumption]. rewrite keys_length in IN. lia.
   - cbn [binding].
+    destruct (MAX_INGREDIENT_DEPTH <=? length visited) eqn:D.
+    { unfold bpost. cbn [b_fuel_out b_visited b_steps b_depth b_result]. repeat split; try assumption; try lia. intros; discriminate. }
+    apply Nat.leb_gt in D.
     destruct (memb c visited) eqn:Mb.
-    { unfold bpost. cbn. repeat split; try assumption; try lia. intros; discriminate. }
+    { unfold bpost. cbn [b_fuel_out b_visited b_steps b_depth b_result]. repeat split; try assumption; try lia. intros; discriminate. }
     apply memb_false in Mb.
     assert (ND' : NoDup (c :: visited)) by (constructor; assumption).
     assert (IN' : incl (c :: visited) (keys st)) by (intros x [->|Hx]; [eapply lookup_keys; eauto | auto]).
@@ -859,8 +863,9 @@ Proof.
     destruct (bind_scan st (m_ings m) 0) as [[l p|l|] n]; cbn [fst snd] in *.
     + destruct Sr as [Lp Up].
       specialize (IH l p (c :: visited) (S steps + n) (S depth) Lp ND' IN').
-      destruct IH as [P1 [P2 [P3 [P4 [P5 [P6 P7]]]]]]; [cbn [length]; lia|].
-      unfold bpost. rewrite Wc in P5. cbn [length] in *. repeat split; try assumption; lia.
+      destruct IH as [P1 [P2 [P3 [P4 [P5 [P6 [P8 P7]]]]]]]; [cbn [length]; lia|].
+      unfold bpost. rewrite Wc in P5. cbn [length] in *. repeat split; try assumption; try lia.
+      intros Hd Hl. apply P8; lia.
     + unfold bpost. cbn [b_fuel_out b_visited b_steps b_depth b_result]. rewrite Wc. cbn [length].
       repeat split; try assumption; try lia.
       intros l' E. inversion E; subst. destruct Sr as [p [Lp [Up Hp]]]. exists p. repeat split; assumption.
@@ -870,15 +875,16 @@ Qed.
 
 Theorem binding_top_bounds : forall root,
   let r := binding_top st root in
-  b_fuel_out r = false /\ b_steps r <= 1 + n_manifests st + n_refs st /\ b_depth r <= 1 + n_manifests st /\
+  b_fuel_out r = false /\ b_steps r <= 1 + n_manifests st + n_refs st /\
+  b_depth r <= MAX_INGREDIENT_DEPTH /\ b_depth r <= 1 + n_manifests st /\
   (forall l, b_result r = Some l -> exists ml, lookup st l = Some ml /\ m_update ml = false /\ m_hashbind ml = true).
 Proof.
   intros root. unfold binding_top. destruct (lookup st root) as [m|] eqn:L.
   2:{ cbn. repeat split; try lia. intros; discriminate. }
   pose proof (binding_post (S (n_manifests st)) root m [] 0 0 L) as P.
-  destruct P as [P1 [P2 [P3 [P4 [P5 [P6 P7]]]]]]; [constructor | intros x [] | cbn; lia |].
+  destruct P as [P1 [P2 [P3 [P4 [P5 [P6 [P8 P7]]]]]]]; [constructor | intros x [] | cbn; lia |].
   cbn zeta. pose proof (W_le_refs st _ P2). pose proof (NoDup_incl_len _ _ P2 P3) as LV. rewrite keys_length in LV.
-  cbn [length W] in *. repeat split; try assumption; lia.
+  cbn [length W] in *. repeat split; try assumption; try lia. apply P8; lia.
 Qed.
 
 End Binding.
@@ -998,10 +1004,12 @@ Fixpoint upd_tail (j len : nat) : store :=
 Definition deep_binding_store (n : nat) : store :=
   (0%N, mk false false (map cref (rev (seq 2 (n - 1))) ++ [pref 1])) :: upd_tail 1 n.
 
-Lemma binding_depth_witness :
+(* since fix c381c9a00 the search gives up (None => claim.hardBindings.missing) once `visited` holds `limit` labels *)
+Lemma binding_deep_fan_bounded :
   let st := deep_binding_store (MAX_INGREDIENT_DEPTH + 10) in
   snd (referenced_top st false 0%N) = None /\
   rs_maxdepth (fst (referenced_top st false 0%N)) = 3 /\
-  b_result (binding_top st 0%N) = Some (N.of_nat (MAX_INGREDIENT_DEPTH + 11)) /\
-  MAX_INGREDIENT_DEPTH < b_depth (binding_top st 0%N).
-Proof. cbn zeta. split; [|split; [|split]]; try (vm_compute; reflexivity). apply Nat.ltb_lt. vm_compute. reflexivity. Qed.
+  b_result (binding_top st 0%N) = None /\
+  b_depth (binding_top st 0%N) = MAX_INGREDIENT_DEPTH /\
+  b_result (binding_top (deep_binding_store (MAX_INGREDIENT_DEPTH - 1)) 0%N) = Some (N.of_nat MAX_INGREDIENT_DEPTH).
+Proof. cbn zeta. repeat split; vm_compute; reflexivity. Qed.
